@@ -1565,6 +1565,14 @@ def c19_scenario(rnd, k, fault_kind):
             plan[cond] = {"reply": reply}
             out = {"err": "ai-error"} if fault_kind in ("no-key", "refused") else {"reply": reply}
             asyncs.append({"v": "check-ai", "arg": cond, "out": out})
+    # one scenario in three: a scripted block (check-lua, fixed complaint) next to the AI blocks of one of the files - the two
+    # asynchronous validators then report on the same file, each diagnostic must survive
+    if rnd.random() < 0.34 and files:
+        script = os.path.join(K.ROOT, "tools", "lua", "str.lua")
+        p = rnd.choice(sorted(files))
+        sev = rnd.choice(["", "", " severity=\"warning\"", " severity=\"error\""])
+        files[p] += f"# <block check-lua=\"{script}\"{sev}>\nscripted\n# </block>\n"
+        asyncs.append({"v": "check-lua", "arg": script, "out": {"data": {"script": script, "lua_error": "fixed message"}}})
     # one scenario in three with several conditions: the answer to one of the EARLIER conditions is held back, so the
     # answers arrive in another order than the blocks were taken up (every verdict still belongs to its own block)
     conds = list(plan)
@@ -1863,6 +1871,16 @@ def c10_async_ranges(rep, tier, seed, tr):
     rows = K.run_component(rep.prop, "lua", [], seed, n, tier)
     K.correspondence(rep, rows, "lua (ranges)", lambda c, i, m: len(i.get("run", {}).get("diags", [])) >= 1, known=K.load_known(rep.prop))
     c19_run(rep, tier, seed, tr, n_override=n_for(tier, 30, 300))
+
+
+_c11_src = CHECKS["C11"]["run"]
+def _c11_run(rep, tier, seed, tr):
+    _c11_src(rep, tier, seed, tr)
+    # both asynchronous validators reporting (partly on the same file, with low severities, with faults): the report and the
+    # exit status through the binary against the fake endpoint
+    rep.rules.append("plus 30 (thorough: 300) check-ai scenarios with scripted blocks in the same files through the binary")
+    c19_run(rep, tier, seed + 1, tr, n_override=n_for(tier, 30, 300))
+CHECKS["C11"]["run"] = _c11_run
 
 
 _c10_src = CHECKS["C10"]["run"]
